@@ -293,6 +293,10 @@ class GoVerifier(GoExec, SpecMixin, CallsMixin, StmtsMixin, LibMixin):
             self.oblige(state, 'panic-allowed(%s)' % info, cond)
         else:
             self.oblige(state, 'no-panic(%s)' % info, z3.BoolVal(False))
+        if c:
+            env = SpecEnv(state, {}, entry)
+            for i, cl in enumerate(c.get('panic_ensures')):
+                self.oblige(state, 'panic-post#%d(%s)' % (i + 1, info), self.sev_bool(env, cl.expr), src=cl.line)
 
 def _lemma_methods():
     pass
